@@ -30,6 +30,8 @@ def run(rep, tier):
     H.r_teval_window(rep, hc)
     rep.rule("R-DIR-MIRROR", "every `if forward { A } else { B }` comparison pair of time points in the handler is symmetric under time reflection")
     H.r_dir_mirror(rep, hc)
+    rep.rule("R-TIME-ORDER", "an ordering test between two time points (a time difference compared with a tolerance, not under abs) is never evaluated in the same form for both directions of integration")
+    H.r_time_order(rep, hc)
     C19.interrupt_rule(rep, f)
     rep.explanation = ("Largely decided structurally. 'Everything before the stop is identical to the non-terminal run' follows from R-TERM-TAINT "
                        "(the terminal flag feeds only the Interrupt decision) together with determinism (C12).")
